@@ -285,6 +285,72 @@ class World:
             raise Inconclusive("registration of %s timed out" % nick)
         return self.finish_step(cid, exp, lines, pre, actor_closed=None)
 
+    # ---- unfinished registrations: a connection that only claims a nickname, and may complete later
+    def _marker(self, c, tag):
+        c.send(tag)
+        return c.read_until(lambda m: m.verb == "421" and tag in m.params, self.watchdog)[:-1]
+
+    def half_open(self, nick, password=None):
+        cid = self.next_cid
+        self.next_cid += 1
+        self.actions.append(["half_open", nick, password])
+        try:
+            c = wire.Client(self.srv.port, tls=self.tls, timeout=self.watchdog, name=str(cid))
+        except OSError as ex:
+            raise Inconclusive("connect failed: %r" % (ex,))
+        self.clients[cid] = c
+        pre = self.model.clone()
+        self.model.new_conn(cid)
+        self.model.conn[cid]["claim"] = None
+        self.log(cid, "HALF-OPEN NICK %s" % nick)
+        exp = M.Exp("HALF", ("C02", "C03", "C19", "C06"))
+        exp.forbid |= {"001"}
+        if nick in self.model.users:
+            exp.need("433", p1=nick)
+            exp.shape = "half:taken"
+        else:
+            self.model.conn[cid]["claim"] = nick
+            exp.shape = "half:claimed"
+        exp.cover.append(("half", exp.shape))
+        if password is not None:
+            c.send("PASS " + password)
+        c.send("NICK " + nick)
+        try:
+            lines = self._marker(c, "VSYNC%d" % (self.step_no + 1))
+        except wire.Closed as ex:
+            return self.finish_step(cid, exp, ex.lines, pre, ex.kind)
+        except wire.Timeout:
+            raise Inconclusive("half-open connection got no answer")
+        return self.finish_step(cid, exp, lines, pre, None)
+
+    def half_complete(self, cid, user):
+        c = self.clients[cid]
+        self.actions.append(["half_complete", cid, user])
+        claim = self.model.conn[cid].get("claim")
+        pre = self.model.clone()
+        self.log(cid, "HALF-COMPLETE USER %s (claim %s)" % (user, claim))
+        if claim is None:
+            exp = M.Exp("HALF", ("C02", "C03", "C19"))
+            exp.forbid |= {"001"}
+            exp.shape = "half:user-without-nick"
+        elif claim in self.model.users:
+            exp = M.Exp("HALF", ("C02", "C03", "C19", "C06"))
+            exp.need("433", p1=claim)
+            exp.forbid |= {"001"}
+            exp.shape = "half:late-433"
+        else:
+            exp = self.model.register(cid, claim, user, "half")
+            exp.shape = "half:completed"
+        exp.cover.append(("half", exp.shape))
+        c.send("USER %s 0 * :half" % user)
+        try:
+            lines = self._marker(c, "VSYNC%d" % (self.step_no + 1))
+        except wire.Closed as ex:
+            return self.finish_step(cid, exp, ex.lines, pre, ex.kind)
+        except wire.Timeout:
+            raise Inconclusive("half-open connection got no answer")
+        return self.finish_step(cid, exp, lines, pre, None)
+
     def act(self, cid, cmd):
         """one command by a registered client, barrier, check"""
         c = self.clients[cid]
